@@ -196,6 +196,19 @@ impl Checker for C03 {
                         ));
                         return;
                     }
+                    // each pool gives up exactly the value of its own requests
+                    let (vb, vs) = (mul_floor(h.bsei_amount.u128(), h.bsei_applied_exchange_rate), mul_floor(h.stsei_amount.u128(), h.stsei_applied_exchange_rate));
+                    let (db, ds) = (
+                        o0.state.total_bond_bsei_amount.u128().saturating_sub(o1.state.total_bond_bsei_amount.u128()),
+                        o0.state.total_bond_stsei_amount.u128().saturating_sub(o1.state.total_bond_stsei_amount.u128()),
+                    );
+                    if o1.delegated > 0 && (db != vb || ds != vs) {
+                        out.fail(v(
+                            "undelegation-pool-deltas",
+                            format!("{}: pools gave up {} / {} but the batch's requests are worth {} / {}", step.desc(), db, ds, vb, vs),
+                        ));
+                        return;
+                    }
                     let exp = mul_floor(h.bsei_amount.u128(), h.bsei_applied_exchange_rate) + mul_floor(h.stsei_amount.u128(), h.stsei_applied_exchange_rate);
                     if und != exp {
                         out.fail(v(
